@@ -127,6 +127,59 @@ impl ToVal for UnitVal {
     }
 }
 
+// User-defined targets of decode_varint / decode_varuint (the functions are generic over `T: TryFrom<i64 / u64>`): a zero-sized
+// type (an enum with a single variant is one) and a type wider than 128 bits. Neither is an integer, both are legal.
+#[derive(Debug, PartialEq)]
+pub enum Version {
+    V1 = 1,
+}
+impl TryFrom<u64> for Version {
+    type Error = ();
+    fn try_from(v: u64) -> Result<Self, ()> {
+        if v == 1 { Ok(Version::V1) } else { Err(()) }
+    }
+}
+impl TryFrom<i64> for Version {
+    type Error = ();
+    fn try_from(v: i64) -> Result<Self, ()> {
+        if v == 1 { Ok(Version::V1) } else { Err(()) }
+    }
+}
+impl ToVal for Version {
+    fn to_val(&self) -> Val {
+        Val::Int(1)
+    }
+}
+#[derive(Debug, PartialEq)]
+pub struct Wide(pub [i64; 4]);
+impl TryFrom<u64> for Wide {
+    type Error = ();
+    fn try_from(v: u64) -> Result<Self, ()> {
+        if v <= 100 { Ok(Wide([v as i64, 0, 0, 0])) } else { Err(()) }
+    }
+}
+impl TryFrom<i64> for Wide {
+    type Error = ();
+    fn try_from(v: i64) -> Result<Self, ()> {
+        if (-100..=100).contains(&v) { Ok(Wide([v, 0, 0, 0])) } else { Err(()) }
+    }
+}
+impl ToVal for Wide {
+    fn to_val(&self) -> Val {
+        Val::Int(self.0[0] as i128)
+    }
+}
+impl ToVal for i128 {
+    fn to_val(&self) -> Val {
+        Val::Int(*self)
+    }
+}
+impl ToVal for u128 {
+    fn to_val(&self) -> Val {
+        Val::Int(*self as i128)
+    }
+}
+
 pub fn cases() -> Vec<Case> {
     fn b(t: Ty) -> Box<Ty> {
         Box::new(t)
@@ -151,6 +204,12 @@ pub fn cases() -> Vec<Case> {
         Case { name: "varuint->u16", ty: Ty::VarUInt(16), real: |d| run::<u16, _>(d, |x| x.decode_varuint::<u16>()), sized: false },
         Case { name: "varuint->u32", ty: Ty::VarUInt(32), real: |d| run::<u32, _>(d, |x| x.decode_varuint::<u32>()), sized: false },
         Case { name: "varuint->u64", ty: Ty::VarUInt(64), real: |d| run::<u64, _>(d, |x| x.decode_varuint::<u64>()), sized: false },
+        Case { name: "varint->Version(zero-sized)", ty: Ty::VarIntIn(1, 1), real: |d| run::<Version, _>(d, |x| x.decode_varint::<Version>()), sized: false },
+        Case { name: "varuint->Version(zero-sized)", ty: Ty::VarUIntIn(1, 1), real: |d| run::<Version, _>(d, |x| x.decode_varuint::<Version>()), sized: false },
+        Case { name: "varint->Wide(32-bytes)", ty: Ty::VarIntIn(-100, 100), real: |d| run::<Wide, _>(d, |x| x.decode_varint::<Wide>()), sized: false },
+        Case { name: "varuint->Wide(32-bytes)", ty: Ty::VarUIntIn(0, 100), real: |d| run::<Wide, _>(d, |x| x.decode_varuint::<Wide>()), sized: false },
+        Case { name: "varint->i128", ty: Ty::VarInt(64), real: |d| run::<i128, _>(d, |x| x.decode_varint::<i128>()), sized: false },
+        Case { name: "varuint->u128", ty: Ty::VarUInt(64), real: |d| run::<u128, _>(d, |x| x.decode_varuint::<u128>()), sized: false },
         Case { name: "size", ty: Ty::Size, real: |d| run::<usize, _>(d, |x| x.decode_size()), sized: false },
         Case { name: "String", ty: Ty::Str, real: plain::<String>, sized: true },
         Case { name: "Vec<u8>", ty: Ty::Seq(b(Ty::U8)), real: plain::<Vec<u8>>, sized: true },
